@@ -299,7 +299,7 @@ def rigid(s, t, a):
     return map_leaves(s, fP, lambda th: th + a, lambda lo, hi: (lo + a, hi + a))
 
 
-def diff(a, b, tol_point=1e-9, tol_real=0.0, angle_mod=True, path="", tol_angle=1e-9, scale=1.0):
+def diff(a, b, tol_point=1e-9, tol_real=0.0, angle_mod=True, path="", tol_angle=1e-9, scale=1.0, abs_real=None):
     """yields (path, kind, detail).  a = expected, b = observed."""
     if isinstance(a, tuple) and a and isinstance(a[0], str) and a[0] in ("P", "O", "OI", "IV", "R", "LP", "LO"):
         if not (isinstance(b, tuple) and b and b[0] == a[0] and len(b) == len(a)):
@@ -323,6 +323,9 @@ def diff(a, b, tol_point=1e-9, tol_real=0.0, angle_mod=True, path="", tol_angle=
                     yield (path, "wrong-orientation-interval", f"expected {a[1:]} got {b[1:]}")
             elif abs(a[1] - b[1]) > tol_angle or abs(a[2] - b[2]) > tol_angle:
                 yield (path, "wrong-orientation-interval", f"expected {a[1:]} got {b[1:]}")
+        elif abs_real is not None:
+            if any(abs(x - y) > abs_real + 4e-16 * abs(x) for x, y in zip(a[1:], b[1:])):
+                yield (path, "wrong-real", f"expected {a[1:]} got {b[1:]}")
         else:
             if any(abs(x - y) > tol_real * max(1.0, abs(x)) + (tol_real if tol_real else 0) for x, y in zip(a[1:], b[1:])):
                 yield (path, "wrong-real", f"expected {a[1:]} got {b[1:]}")
@@ -335,7 +338,7 @@ def diff(a, b, tol_point=1e-9, tol_real=0.0, angle_mod=True, path="", tol_angle=
             if k not in b:
                 yield (f"{path}.{k}", "dropped", f"{a[k]!r}"[:200])
             else:
-                yield from diff(a[k], b[k], tol_point, tol_real, angle_mod, f"{path}.{k}", tol_angle, scale)
+                yield from diff(a[k], b[k], tol_point, tol_real, angle_mod, f"{path}.{k}", tol_angle, scale, abs_real)
         for k in b:
             if k not in a:
                 yield (f"{path}.{k}", "added", f"{b[k]!r}"[:200])
@@ -345,7 +348,7 @@ def diff(a, b, tol_point=1e-9, tol_real=0.0, angle_mod=True, path="", tol_angle=
             yield (path, "length-changed" if isinstance(b, (list, tuple)) else "kind-changed", f"{a!r} -> {b!r}"[:300])
             return
         for i, (x, y) in enumerate(zip(a, b)):
-            yield from diff(x, y, tol_point, tol_real, angle_mod, f"{path}[{i}]", tol_angle, scale)
+            yield from diff(x, y, tol_point, tol_real, angle_mod, f"{path}[{i}]", tol_angle, scale, abs_real)
         return
     if a != b or type(a) is not type(b) and not (isinstance(a, (int, float)) and isinstance(b, (int, float)) and not isinstance(a, bool) and not isinstance(b, bool)):
         yield (path, "altered", f"{a!r} -> {b!r}"[:200])
